@@ -73,6 +73,10 @@ fn column_of(kind: ElementKind, key: &str) -> Option<&'static str> {
 /// The dot path a matcher key reads in the rendered view.
 fn view_key(kind: ElementKind, key: &str) -> String {
     match (kind, key) {
+        // The lifecycle state is engine truth, rendered under `_system`. A
+        // present-day read decides it from the index and never gets here; at
+        // a past coordinate it is read from the historical view.
+        (_, "state") => "_system.state".to_string(),
         (ElementKind::Concept, "type") => "schema_ref".to_string(),
         (ElementKind::Evidence, "class") => "evidence_class".to_string(),
         (ElementKind::Activity, "class") => "activity_class".to_string(),
